@@ -251,6 +251,26 @@ def _impl(tier, seed, search):
                 L.close('SE3.prod', r[0], want_, TOL, max(1.0, geom.tmag(want_)), dict(n=3), sig='prod:classes'); L.close('UQ(X).prod after X.prod', r[1], want_[:3, :3], TOL, 1.0, dict(n=3), what='the product of the values of UnitQuaternion(X) differs from the product of the rotations once X.prod() has been called', sig='prod:classes')
                 L.close('Twist3(X).prod after X.prod', r[2], want_, TOL, max(1.0, geom.tmag(want_)), dict(n=3), sig='prod:classes'); L.close('SO3.prod', r[3], want_[:3, :3], TOL, 1.0, dict(n=3), sig='prod:classes')
                 L.close('SE3.prod (again)', r[4], want_, TOL, max(1.0, geom.tmag(want_)), dict(n=3), what='a second X.prod() differs from the first', sig='prod:classes'); L.close('X[0] after prod', r[5], Ps_[0].A, TOL, max(1.0, geom.tmag(Ps_[0].A)), dict(n=3), what='X.prod() changed X[0]', sig='prod:classes')
+        # pose -> twist near a half turn, composed with / applied to something far away (lever arm 1e5 .. 1e6): the angle of the logarithm
+        # must be good to much better than 1e-8 rad for the composition to agree; compared at 1e-10 of the translation magnitude
+        # (looser than the 1e-6 the property states for these magnitudes, far above the 1e-15 the unchanged code achieves)
+        if i < 15:
+            axn_ = np.array([(1, 2, -1), (0.3, -0.5, 0.8), (0, 0, 1)][i % 3], float); dn_ = (1e-9, 3e-9, 1e-8, 1e-7, 1e-6)[i // 3]
+            Xn_ = SE3(1.0, -2.0, 0.5) * SE3.AngVec(math.pi - dn_, axn_); Yn_ = SE3(2.0e5, -7.0e5, 4.0e5) * SE3.RPY([0.4, -0.7, 1.1]); pn_ = np.array([6.0e5, -3.0e5, 8.0e5])
+            ok, r = L.noraise('Twist3(X)*Y (near pi, far)', lambda: ((Twist3(Xn_) * Yn_).A, (Twist3(Xn_) * Twist3(Yn_)).SE3().A, np.asarray(Twist3(Xn_).SE3() * pn_, float).flatten(), (Xn_ * Yn_).A, np.asarray(Xn_ * pn_, float).flatten()), dict(axis=axn_, pi_minus=dn_), 'pose -> twist near a half turn, composed with a far pose')
+            if ok:
+                scn_ = 1e6
+                L.close('Twist3(X)*Y = X*Y (near pi, far)', r[0], r[3], 1e-10, scn_, dict(axis=axn_, pi_minus=dn_), what='Twist3(X) * Y differs from X * Y for a rotation next to a half turn composed with a far pose', sig='twist-compose:near-pi')
+                L.close('(Twist3(X)*Twist3(Y)).SE3() = X*Y (near pi, far)', r[1], r[3], 1e-10, scn_, dict(axis=axn_, pi_minus=dn_), sig='twist-compose:near-pi'); L.close('Twist3(X).SE3()*p = X*p (near pi, far)', r[2], r[4], 1e-10, scn_, dict(axis=axn_, pi_minus=dn_), sig='twist-compose:near-pi')
+        # two-vector frames from vectors that are neither unit nor perpendicular: the same rotation in every class
+        if i % 4 == 3:
+            oo_ = g.normal(size=3) * 10.0 ** g.uniform(-1, 1); aa_ = g.normal(size=3) * 10.0 ** g.uniform(-1, 1)
+            if np.linalg.norm(np.cross(oo_, aa_)) > 0.2 * np.linalg.norm(oo_) * np.linalg.norm(aa_):
+                ok, r = L.noraise('OA(all classes)', lambda: (SO3.OA(oo_, aa_).A, SE3.OA(oo_, aa_).A[:3, :3], UnitQuaternion.OA(oo_, aa_).R, b.oa2r(oo_, aa_)), dict(o=oo_, a=aa_), 'OA constructors')
+                if ok:
+                    for nm_, got_ in (('SO3.OA', r[0]), ('SE3.OA', r[1]), ('UnitQuaternion.OA', r[2])):
+                        L.close(f'{nm_}=oa2r', got_, r[3], TOL, 1.0, dict(o=oo_, a=aa_), what=f'{nm_} of two vectors that are not perpendicular differs from base.oa2r', sig='OA:classes')
+                    an_ = aa_ / np.linalg.norm(aa_); L.close('oa2r:approach-axis', r[3][:, 2], an_, TOL, 1.0, dict(o=oo_, a=aa_), what='the third column of oa2r is not the normalised approach vector', sig='OA:classes')
         # product of a sequence of twists (3 and 4 values) equals the product of the motions
         if i % 3 == 0:
             Xs_ = [SE3(inputs.se3(g, 2), check=False) for _ in range(4)]
